@@ -28,6 +28,7 @@ TITLE = "Spatial repetitions are reproducible in every execution mode"
 LEAN_MODULE = "SnowProofs.Props.C14"
 THEOREMS = [
     dict(name="Snow.C14.rep_is_seeded_run", clause="any object state, mode, pool batching, global-generator state: results = one row per repetition in seed order, row i = the single run with seed i", strength="full"),
+    dict(name="Snow.C14.rep_after_resize", clause="after S.Nrep = n on an object in any state (e.g. after a larger study) a run gives exactly the n seeded rows", strength="full"),
     dict(name="Snow.C14.single_eq_rep0", clause="a single run (Nrep = 1) equals repetition 0", strength="full"),
     dict(name="Snow.C14.repeat_same", clause="any sequence of earlier runs, then a run: same table (Nrep > 1)", strength="full"),
     dict(name="Snow.C14.repeat_same_single", clause="any sequence of earlier runs, then a run: same row (Nrep = 1)", strength="full"),
@@ -149,9 +150,10 @@ def run_impl(case):
     sn.mp.cpu_count = lambda: case["cpu"]
     try:
         nrep = case["nrep"]
+        nmax = max([nrep] + [op[1] for op in case["ops"] if op[0] == "setNrep"])
         # reference: the single run with seed i on a fresh object each
         ref, ref_evs = [], []
-        for i in range(nrep):
+        for i in range(nmax):
             mark = len(EVENTS)
             ref.append(_single(_mk(case, 1), case, i))
             ref_evs.append(EVENTS[mark:])
@@ -163,7 +165,10 @@ def run_impl(case):
         out = []
         for op in case["ops"]:
             mark = len(EVENTS)
-            if op[0] == "run":
+            if op[0] == "setNrep":
+                S.Nrep = op[1]
+                out.append({})
+            elif op[0] == "run":
                 try:
                     S.run(how=op[1])
                     out.append({"evs": EVENTS[mark:]})
@@ -176,10 +181,10 @@ def run_impl(case):
                                 "rows": [[_bits(x) for x in r] for r in df.to_numpy().tolist()]})
                 except Exception as e:
                     out.append({"raise": core.exc_class(e)})
-        obs = {"raise": None, "out": out, "ref": ref, "ref_evs": ref_evs, "world": _world(w0, nrep)}
+        obs = {"raise": None, "out": out, "ref": ref, "ref_evs": ref_evs, "world": _world(w0, nmax)}
         # the single run on the USED object, global generator perturbed: must equal the reference
         np.random.seed(4242)
-        obs["used"] = [_single(S, case, i) for i in range(min(nrep, 2))]
+        obs["used"] = [_single(S, case, i) for i in range(min(nmax, 2))]
         return obs
     except Exception as e:
         import traceback
@@ -192,9 +197,12 @@ def run_impl(case):
 # ---------------------------------------------------------------------------
 def _model_ops(drv, case):
     ops = []
+    nrep = case["nrep"]
     for op in case["ops"]:
+        if op[0] == "setNrep":
+            nrep = op[1]
         if op[0] == "run" and op[1] == "async":
-            ch = drv.call({"op": "c14_poolChunks", "nrep": case["nrep"], "pool": case["cpu"]})["chunks"]
+            ch = drv.call({"op": "c14_poolChunks", "nrep": nrep, "pool": case["cpu"]})["chunks"]
             ops.append(["run", "async", ch])
         else:
             ops.append(op)
@@ -226,6 +234,8 @@ def compare(case, impl, model):
         dis.append(f"implementation raised outside run/results: {impl['raise']} {impl.get('tb', '')[-300:]}")
         return dis
     for i, (op, a, b) in enumerate(zip(case["ops"], impl["out"], model["out"])):
+        if op[0] == "setNrep":
+            continue
         if op[0] == "run":
             if "raise" in a:
                 dis.append(f"op {i} {op}: implementation raised {a['raise']}")
@@ -261,6 +271,11 @@ def predicates(case, impl):
     last_how = None
     tables = []
     for i, (op, a) in enumerate(zip(case["ops"], impl["out"])):
+        if op[0] == "setNrep":
+            nrep = op[1]
+            last_how = None          # the table is only defined again after the next run
+            tables = []
+            continue
         if op[0] == "run":
             last_how = op[1]
             if "raise" in a:
@@ -269,14 +284,15 @@ def predicates(case, impl):
             continue
         if last_how is None or last_how not in ("sequential", "async"):
             continue
-        hist = [o[1] for o in case["ops"][:i] if o[0] == "run"]
-        cls = "first-run" if len(hist) == 1 else "after-" + "-".join(hist[:-1])
+        hist = [(o[1] if o[0] == "run" else f"Nrep={o[1]}") for o in case["ops"][:i] if o[0] in ("run", "setNrep")]
+        resized = any(o[0] == "setNrep" for o in case["ops"][:i])
+        cls = "first-run" if len(hist) == 1 else ("after-resize" if resized else "after-" + "-".join(hist[:-1]))
         if "raise" in a:
             out.append(Failure(
                 clause="rep_is_seeded_run", key=f"rep_is_seeded_run|Snowing.results|{last_how}|raises:{a['raise']}|{cls}",
                 detail=f"Snowing(Nrep={nrep}) after run(how) for how in {hist}: results raises {a['raise']}"))
             continue
-        if a["index"] != list(range(nrep)) or a["rows"] != ref:
+        if a["index"] != list(range(nrep)) or a["rows"] != ref[:nrep]:
             bad = [j for j in range(min(len(a["rows"]), nrep)) if a["rows"][j] != ref[j]]
             out.append(Failure(
                 clause="rep_is_seeded_run" if nrep > 1 else "single_eq_rep0",
@@ -303,7 +319,7 @@ def predicates(case, impl):
 
 
 def classify(case, impl):
-    hows = "+".join(o[1] for o in case["ops"] if o[0] == "run")
+    hows = "+".join((o[1] if o[0] == "run" else f"Nrep={o[1]}") for o in case["ops"] if o[0] in ("run", "setNrep"))
     return [f"dim={case['dim']}", f"nrep={case['nrep']}", f"cpu={case['cpu']}", f"prog={case['prog']}",
             f"hows={hows}"]
 
@@ -335,6 +351,13 @@ def cases(rng, tier):
                 ops += [["run", how], R]
             yield dict(dim="homogeneous", nrep=nrep, cpu=rng.choice([1, 2, 16]), prog=rng.choice(progs), ops=ops,
                        gstate=rng.randrange(1000), gdraws=rng.randrange(1, 5))
+    # a larger study followed by a smaller one on the same object (and the reverse), both modes, both orders
+    for n1, n2 in ((4, 2), (7, 3), (3, 1), (2, 5), (1, 3), (5, 2)):
+        for h1 in ("sequential", "async"):
+            for h2 in ("sequential", "async"):
+                yield dict(dim="homogeneous", nrep=n1, cpu=rng.choice([1, 2, 16]), prog=rng.choice(progs),
+                           ops=[["run", h1], R, ["setNrep", n2], ["run", h2], R], gstate=rng.randrange(1000),
+                           gdraws=rng.randrange(1, 5))
     # the program of the package's documentation (3 h process)
     for how in ("sequential", "async"):
         yield dict(dim="homogeneous", nrep=3, cpu=2, prog="A", ops=[["run", how], R], gstate=5, gdraws=2)
